@@ -13,7 +13,7 @@ import (
 // requests, sequential or concurrent, with the crashed request's context reused
 // immediately by the pool.
 
-var panicKinds = []string{"str", "str", "err", "rt", "aborthandler"}
+var panicKinds = []string{"str", "str", "err", "rt", "aborthandler", "brokenpipe", "connreset"}
 
 func genC09(concurrent bool) func(rng *Rng, sc *Scenario) {
 	return func(rng *Rng, sc *Scenario) {
